@@ -99,12 +99,12 @@ def s_prettify(vc):
         return
     if behaviour == "text":
         shown, K = text, Not(no_c1(text))
-        vc.ensure("ok.text_is_escaped_view_text", And(len_(r.text) == len_(text), Implies(clean(text), r.text == text)))
+        vc.ensure("ok.text_is_escaped_view_text", And(len_(r.text) == len_(text), Implies(And(clean(text), no_c1(text)), r.text == text)))
         vc.ensure("ok.attributes", And(r.view_name == name, vc.eq(r.syntax_highlight, "yaml"), r.description == enc))
     elif view_name == "auto":
         raw_text = _raw_text(vc, data)
         K = Not(no_c1(raw_text))
-        vc.ensure("auto_fallback.raw_view", And(vc.eq(r.view_name, "Raw"), len_(r.text) == len_(raw_text), Implies(clean(raw_text), r.text == raw_text)))
+        vc.ensure("auto_fallback.raw_view", And(vc.eq(r.view_name, "Raw"), len_(r.text) == len_(raw_text), Implies(And(clean(raw_text), no_c1(raw_text)), r.text == raw_text)))
         vc.ensure("auto_fallback.description_says_so", startswith(r.description, enc + "[failed to parse as "))
     else:
         K = Not(And(no_c1(tb_text), no_c1(name)))
@@ -112,7 +112,7 @@ def s_prettify(vc):
         # the text is the escaped  "Couldn't parse as <name>:\n<traceback>"  (escaping keeps the length)
         vc.ensure("explicit_error.text_is_the_escaped_report", len_(r.text) == len("Couldn't parse as :\n") + len_(name) + len_(tb_text))
     # second reading of "control character": C1 controls survive escape_control_characters (same root cause as KF-C49-6)
-    vc.ensure_kf("result.no_c1", no_c1(r.text), "KF-C50-1", K)
+    vc.ensure("result.no_c1", no_c1(r.text))   # was KF-C50-1, fixed in 01d24acb6
 
 
 def _raw_text(vc, data):
